@@ -556,6 +556,39 @@ class Run:
                        kind="angle/%s/cos%d" % (unit, ident))
 
 
+    def add_angle_fresh(self, unit, rmin, rmax, z, H0, Om0, tag):
+        """the same conversion with a short-lived cosmology object (a parameter scan creates and drops
+        many of them; nothing may be remembered per object identity)"""
+        import gc
+        from astropy.cosmology import FlatLambdaCDM
+        from yaw import Configuration
+        cos = FlatLambdaCDM(H0=H0, Om0=Om0)
+        try:
+            conf = Configuration.create(rmin=rmin, rmax=rmax, unit=unit, zmin=0.25, zmax=0.5, num_bins=1, cosmology=cos)
+            amin, amax = conf.scales.scales.get_angle_radian(z, cosmology=conf.cosmology)
+        except Exception as e:  # noqa: BLE001
+            self.ctx.fail("c15-angle-raises:%s" % type(e).__name__, "get_angle_radian raised %s for unit %s with a FlatLambdaCDM object"
+                          % (type(e).__name__, unit), dict(unit=unit, rmin=rmin, rmax=rmax, z=z, H0=H0, Om0=Om0))
+            return
+        ref = FlatLambdaCDM(H0=H0, Om0=Om0)      # independent object with the same parameters = the oracle
+        DA, DC = float(ref.angular_diameter_distance(float(z)).value), float(ref.comoving_distance(float(z)).value)
+        rs = as_list(rmin) + as_list(rmax)
+        try:
+            ang = [float(x) for x in np.atleast_1d(amin)] + [float(x) for x in np.atleast_1d(amax)]
+        except Exception as e:  # noqa: BLE001
+            self.ctx.fail("c15-angle-not-a-number", "get_angle_radian with a short-lived FlatLambdaCDM object returned %r (%s): a value "
+                          "remembered from an earlier, unrelated cosmology object?" % (amin, type(e).__name__),
+                          dict(unit=unit, rmin=rmin, rmax=rmax, z=z, H0=H0, Om0=Om0))
+            return
+        term = "c15_angle_case %s %s %s %s %s %s" % (coq_unit(unit), fq.q(float(np.pi / 180.0)), fq.q(DA), fq.q(DC),
+                                                    fq.qlist(rs), fq.qlist(ang))
+        self.cases["angle"].append(dict(term=term, unit=unit, rmin=rmin, rmax=rmax, z=z, cosmology="FlatLambdaCDM(H0=%s, Om0=%s)" % (H0, Om0),
+                                        angles=[a.hex() for a in ang], DA=DA, DC=DC, tag=tag))
+        self.ctx.count(key=("angle-fresh", unit, repr(rmin), repr(rmax), z, H0, Om0), nontrivial=True, kind="angle-fresh/%s" % unit)
+        del cos, conf, ref
+        gc.collect()
+
+
 def canon(d):
     return tuple(sorted((k, repr(v.key()) if isinstance(v, Cos) else repr(v)) for k, v in d.items()))
 
@@ -1097,6 +1130,12 @@ def build_cases(ctx, run):
             # once by the create probe (c15-custom-cosmology-typeerror), not per unit
             if not do_create(dict(rmin=1.0, rmax=2.0, zmin=0.25, zmax=0.5, num_bins=1, cosmology=Cos("custom"))).raised:
                 run.add_angle(u, rmin, rmax, rng.choice(zs), CUSTOM_ID, "custom-cosmology-config", via_config=True)
+
+
+    # a scan over short-lived cosmology objects at one redshift (physical and comoving units)
+    for u in ("kpc", "Mpc", "kpc/h", "Mpc/h"):
+        for j in range(ctx.n(8, 30)):
+            run.add_angle_fresh(u, 100.0, 1000.0, 0.5, 55.0 + 2.5 * j, 0.2 + 0.01 * j, "short-lived-cosmology")
 
 
 def evaluate(ctx, run):
